@@ -14,7 +14,7 @@ Road map (everything is about `Impl/RollingRun.lean` versus `Spec/Rolling.lean`)
 3. *state invariant* `Inv w win st` ("`st` holds window `win`") and its preservation by the three
    history refreshes (`refreshHead_inv`, `refreshTail_inv`).
 4. *loops*: `runHead_spec` (first loop of `_rolling_hash2_run`), `untilLoop_spec` /
-   `runUntilBase_spec` (the `int`-indexed base scan), assembled in `run_good`: every call returns a
+   `runUntilBase_spec` (the base scan), assembled in `run_good`: every call returns a
    `Good` result (first hit or `max_len`, never beyond, invariant re-established).
 5. `reset_inv`; `Good.firstHit_eq` (link to `Spec.Rolling.firstHit`); `runCalls_inv`,
    `scanStream_spec`, `scanStream_progress` (sequences of calls, boundaries).
@@ -312,7 +312,7 @@ theorem untilLoop_spec {w n : Nat} {win : Bytes} {st : RhState} {buffer : Buf} (
     ∀ (d k : Nat) (h : UInt64), d = n - k → w ≤ k → k ≤ n →
       h = H (winAt w (win ++ buffer.toList.take n) k) →
       ∃ k' : Nat, ∃ h' : UInt64,
-        untilLoop hit (n : Int) table1 st.table2 ⟨buffer, 0⟩ ⟨buffer, -(w : Int)⟩ (k : Int) h = ((k' : Int), h') ∧
+        untilLoop hit n table1 st.table2 ⟨buffer, 0⟩ ⟨buffer, -(w : Int)⟩ k h = (k', h') ∧
         k ≤ k' ∧
         ((k' < n ∧ h' = H (winAt w (win ++ buffer.toList.take n) (k' + 1)) ∧
             hitK w mask trigger (win ++ buffer.toList.take n) (k' + 1) = true ∧
@@ -326,14 +326,13 @@ theorem untilLoop_spec {w n : Nat} {win : Bytes} {st : RhState} {buffer : Buf} (
     have : k = n := by omega
     subst this
     rw [untilLoop]
-    simp only [Int.lt_irrefl, ↓reduceIte]
+    simp only [Nat.lt_irrefl, ↓reduceIte]
     exact ⟨k, h, rfl, Nat.le_refl _, Or.inr ⟨rfl, hh, fun j h1 h2 => by omega⟩⟩
   | succ d ih =>
     intro k h hd hwk hkn hh
     have hlt : k < n := by omega
-    have hlt' : (k : Int) < (n : Int) := by omega
     rw [untilLoop]
-    simp only [hlt', ↓reduceIte]
+    simp only [hlt, ↓reduceIte]
     rw [hh, tail_step hw1 hw48 inv hn hwk hlt, hhit]
     by_cases ht : hitK w mask trigger (win ++ buffer.toList.take n) (k + 1) = true
     · have ht' := ht
@@ -344,8 +343,6 @@ theorem untilLoop_spec {w n : Nat} {win : Bytes} {st : RhState} {buffer : Buf} (
       have ht'' := ht'
       simp only [hitK] at ht''
       simp only [ht'', Bool.false_eq_true, ↓reduceIte]
-      have ecast : (k : Int) + 1 = ((k + 1 : Nat) : Int) := by omega
-      rw [ecast]
       obtain ⟨k', h', e, hk', hres⟩ := ih (k + 1) _ (by omega) (by omega) hlt rfl
       refine ⟨k', h', e, by omega, ?_⟩
       have hno : ∀ j, k < j → j ≤ k' →
@@ -360,17 +357,13 @@ theorem untilLoop_spec {w n : Nat} {win : Bytes} {st : RhState} {buffer : Buf} (
       · subst a
         exact Or.inr ⟨rfl, b, fun j h1 h2 => hno j h1 h2 c⟩
 
-theorem toInt32_of_lt {n : Nat} (h : n < 2 ^ 31) : toInt32 n = (n : Int) := by
-  have h1 : n % 2 ^ 32 = n := Nat.mod_eq_of_lt (by omega)
-  simp only [toInt32, h1, h, ↓reduceIte]
-
 /-- `_rolling_hash2_run_until_base` as called by `run`: it stops at the first hit after position `w`
-(returning the index of the byte that produced it) or at `n`. -/
+(returning the index of the byte that produced it) or at `n`, for every `uint32_t` length `n`. -/
 theorem runUntilBase_spec {w n : Nat} {win : Bytes} {st : RhState} {buffer : Buf} (mask trigger : UInt32)
-    (hw1 : 1 ≤ w) (hw48 : w ≤ 48) (inv : Inv w win st) (hn : n ≤ buffer.size) (h31 : n < 2 ^ 31)
+    (hw1 : 1 ≤ w) (hw48 : w ≤ 48) (inv : Inv w win st) (hn : n ≤ buffer.size) (h32 : n < 2 ^ 32)
     (hwn : w ≤ n) :
     ∃ k' : Nat, ∃ h' : UInt64,
-      runUntilBase w (toInt32 n) table1 st.table2 ⟨buffer, 0⟩ ⟨buffer, -(w : Int)⟩
+      runUntilBase w n table1 st.table2 ⟨buffer, 0⟩ ⟨buffer, -(w : Int)⟩
         (H (winAt w (win ++ buffer.toList.take n) w)) mask.toUInt64 trigger.toUInt64 = (k', h') ∧
       w ≤ k' ∧
       ((k' < n ∧ h' = H (winAt w (win ++ buffer.toList.take n) (k' + 1)) ∧
@@ -378,26 +371,21 @@ theorem runUntilBase_spec {w n : Nat} {win : Bytes} {st : RhState} {buffer : Buf
           ∀ j, w < j → j ≤ k' → hitK w mask trigger (win ++ buffer.toList.take n) j = false) ∨
        (k' = n ∧ h' = H (winAt w (win ++ buffer.toList.take n) n) ∧
           ∀ j, w < j → j ≤ n → hitK w mask trigger (win ++ buffer.toList.take n) j = false)) := by
-  have hmod : ∀ k' : Nat, k' ≤ n → (k' : Int).toNat % 2 ^ 32 = k' := by
-    intro k' hk
-    rw [Int.toNat_natCast]; exact Nat.mod_eq_of_lt (by omega)
   unfold runUntilBase
-  rw [toInt32_of_lt h31, toInt32_of_lt (by omega : w < 2 ^ 31)]
+  rw [Nat.mod_eq_of_lt h32]
   by_cases ht : (trigger.toUInt64 == 0) = true
   · have ht0 : trigger.toUInt64 = 0 := by simpa using ht
     obtain ⟨k', h', e, hk, hres⟩ := untilLoop_spec (n := n) (buffer := buffer) mask trigger
       (fun h => (h &&& mask.toUInt64) == 0) (by intro h; simp only [test, ht0]) hw1 hw48 inv hn
       (n - w) w _ rfl (Nat.le_refl _) hwn rfl
     refine ⟨k', h', ?_, hk, hres⟩
-    have hk'n : k' ≤ n := by rcases hres with ⟨a, _⟩ | ⟨a, _⟩ <;> omega
-    simp only [ht, ↓reduceIte, e, hmod k' hk'n]
+    simp only [ht, ↓reduceIte, e]
   · have ht' : (trigger.toUInt64 == 0) = false := by simpa using ht
     obtain ⟨k', h', e, hk, hres⟩ := untilLoop_spec (n := n) (buffer := buffer) mask trigger
       (fun h => (h &&& mask.toUInt64) == trigger.toUInt64) (by intro h; simp only [test]) hw1 hw48 inv hn
       (n - w) w _ rfl (Nat.le_refl _) hwn rfl
     refine ⟨k', h', ?_, hk, hres⟩
-    have hk'n : k' ≤ n := by rcases hres with ⟨a, _⟩ | ⟨a, _⟩ <;> omega
-    simp only [ht', Bool.false_eq_true, ↓reduceIte, e, hmod k' hk'n]
+    simp only [ht', Bool.false_eq_true, ↓reduceIte, e]
 
 /-- A scan implementation meets its specification when it computes what the base scan computes. -/
 def ScanRefinesBase (scan : ScanFn) : Prop :=
@@ -410,7 +398,7 @@ theorem scanRefinesBase_base : ScanRefinesBase runUntilBase := fun _ _ _ _ _ _ _
 from a state holding window `win`, returns a `Good` result. -/
 theorem run_good {w n : Nat} {win : Bytes} {st : RhState} {buffer : Buf} {scan : ScanFn}
     (mask trigger : UInt32) (hscan : ScanRefinesBase scan)
-    (hw1 : 1 ≤ w) (hw48 : w ≤ 48) (inv : Inv w win st) (hn : n ≤ buffer.size) (h31 : n < 2 ^ 31) :
+    (hw1 : 1 ≤ w) (hw48 : w ≤ 48) (inv : Inv w win st) (hn : n ≤ buffer.size) (h32 : n < 2 ^ 32) :
     Good w n mask trigger (win ++ buffer.toList.take n) (run scan st buffer n mask trigger) := by
   have hwin := inv.win_length hw48
   have h0 : st.hash = H (winAt w (win ++ buffer.toList.take n) 0) := by
@@ -429,7 +417,7 @@ theorem run_good {w n : Nat} {win : Bytes} {st : RhState} {buffer : Buf} {scan :
       funext a b c d e f g h i; exact hscan a b c d e f g h i
     subst hs
     simp only [inv.w_eq]
-    obtain ⟨k', h', e, hk, hres⟩ := runUntilBase_spec mask trigger hw1 hw48 inv hn h31 hwn
+    obtain ⟨k', h', e, hk, hres⟩ := runUntilBase_spec mask trigger hw1 hw48 inv hn h32 hwn
     rw [e]
     rcases hres with ⟨hlt, hh', hhit, hbefore⟩ | ⟨hk'n, hh', hnone⟩
     · have ht := hhit
@@ -589,7 +577,7 @@ theorem filter_segment (P : Nat → Bool) (pos off : Nat)
 
 /-- one call of `scanStream` at stream position `pos` -/
 theorem scan_call {scan : ScanFn} (hscan : ScanRefinesBase scan) {w : Nat} (hw1 : 1 ≤ w)
-    (hw48 : w ≤ 48) (stream : Buf) (hsz : stream.size < 2 ^ 31) (mask trigger : UInt32)
+    (hw48 : w ≤ 48) (stream : Buf) (hsz : stream.size < 2 ^ 32) (mask trigger : UInt32)
     (pre : Bytes) (hpre : pre.length = w) (st : RhState) (pos m : Nat) (hpos : pos ≤ stream.size)
     (inv : Inv w (lastN w (pre ++ stream.toList.take pos)) st) :
     ∀ r, r = run scan st (stream.extract pos stream.size) (min m (stream.size - pos)) mask trigger →
@@ -647,7 +635,7 @@ theorem scan_call {scan : ScanFn} (hscan : ScanRefinesBase scan) {w : Nat} (hw1 
     rcases g.ret with ⟨_, ho1, _⟩ | ⟨_, ho, _⟩ <;> omega
 
 theorem scanStream_spec {scan : ScanFn} (hscan : ScanRefinesBase scan) {w : Nat} (hw1 : 1 ≤ w)
-    (hw48 : w ≤ 48) (stream : Buf) (hsz : stream.size < 2 ^ 31) (mask trigger : UInt32)
+    (hw48 : w ≤ 48) (stream : Buf) (hsz : stream.size < 2 ^ 32) (mask trigger : UInt32)
     (pre : Bytes) (hpre : pre.length = w) :
     ∀ (lens : List Nat) (st : RhState) (pos : Nat), pos ≤ stream.size →
       Inv w (lastN w (pre ++ stream.toList.take pos)) st →
@@ -679,7 +667,7 @@ theorem scanStream_spec {scan : ScanFn} (hscan : ScanRefinesBase scan) {w : Nat}
 /-- calls that are offered at least one byte make progress: `k` such calls consume `k` bytes or
 the whole stream -/
 theorem scanStream_progress {scan : ScanFn} (hscan : ScanRefinesBase scan) {w : Nat} (hw1 : 1 ≤ w)
-    (hw48 : w ≤ 48) (stream : Buf) (hsz : stream.size < 2 ^ 31) (mask trigger : UInt32)
+    (hw48 : w ≤ 48) (stream : Buf) (hsz : stream.size < 2 ^ 32) (mask trigger : UInt32)
     (pre : Bytes) (hpre : pre.length = w) :
     ∀ (lens : List Nat) (st : RhState) (pos : Nat), pos ≤ stream.size →
       Inv w (lastN w (pre ++ stream.toList.take pos)) st → (∀ m ∈ lens, 1 ≤ m) →
